@@ -342,7 +342,7 @@ def obligations(tier):
         obs.append(Obligation('O3-complement-and-placement[%s,%d as HETATM %s]' % (name, het[0], het[1]), mk_complement(name, hetero=het), code=pipe + ['propka/hydrogens.py:setup_bonding'],
                               bounds='%s with residue %d written as a modified residue (HETATM records, residue name %s), symbolic grid translation' % (name, het[0], het[1]),
                               claim_doc='as O3: the residues linked to the modified residue keep their single amide hydrogen', max_paths=5000, wall_s=170))
-    for name in (['pair_ASP_ARG', 'pep8'] if tier == 'quick' else ['pair_ASP_ARG', 'pep8', 'pair_CYS_CYS_bridge', 'pair_GLU_ARG_TYR', 'tri_HIS']):
+    for name in (['pair_ASP_ARG', 'pep8'] if tier == 'quick' else ['pair_ASP_ARG', 'pep8', 'pair_CYS_CYS_bridge', 'pair_GLU_ARG_TYR', 'tri_HIS', 'pep_close_hydrogens']):
         obs.append(Obligation('O3-complement-and-placement[%s,keep-protons]' % name, mk_complement(name, keep=True), code=pipe + ['propka/bonds.py:BondMaker.check_distance'],
                               bounds='%s with the hydrogens supplied (the program\'s own, incl. H...O contacts below 2 A), --keep-protons, symbolic grid translation' % name,
                               claim_doc='as O3: in particular every hydrogen is bonded to exactly one (heavy) atom and every group has its full complement', max_paths=5000, wall_s=170))
